@@ -228,7 +228,9 @@ static long long execOp(World &w, const J &op, J &ev) {
         else if (name == "Reload") {
             // save, then construct a new object from the file; the old object is kept if loading fails
             std::string p = fullpath(op.at("path").s);
-            unlink(p.c_str());
+            // the destination already exists and is longer than anything saved here: what is on the disk afterwards must be the object's
+            // content only (C14: no byte from unrelated earlier content)
+            { std::ofstream junk(p.c_str(), std::ios::binary | std::ios::trunc); std::string filler(65536, static_cast<char>(0xAB)); junk.write(filler.data(), 65536); }
             J before = verif::abs(w.obj(o));
             w.obj(o).write(p);
             J after = verif::abs(w.obj(o));
@@ -237,7 +239,7 @@ static long long execOp(World &w, const J &op, J &ev) {
             // C14: saving is pure (object unchanged) and repeatable (a second save gives the same bytes)
             { std::vector<J> d; jdiff(before, after, "", d, 3); jdiff(after, before, "", d, 6);
               J pd = J::arr(); for (size_t i = 0; i < d.size(); ++i) pd.push(d[i]); ev.set("purity", pd); }
-            { std::string p2 = p + ".again"; unlink(p2.c_str()); w.obj(o).write(p2); bool ok2; J b2 = fileBytes(p2, ok2);
+            { std::string p2 = p + ".again"; unlink(p2.c_str()); w.obj(o).write(p2); bool ok2; /* second save: to a path that does not exist yet */ J b2 = fileBytes(p2, ok2);
               size_t first = 0; while (first < b1.a.size() && first < b2.a.size() && b1.a[first].i == b2.a[first].i) ++first;
               ev.set("repeat", J((b1.a.size() == b2.a.size() && first == b1.a.size()) ? -1 : static_cast<long long>(first))); unlink(p2.c_str()); }
             std::unique_ptr<c3d> fresh(new c3d(p));
